@@ -16,7 +16,7 @@ from ..lin import Lin, lin, ge, le, lt, gt, eq, entails
 from ..facts import VERIF, load_program, units_matching, children, strip_all_casts, walk, CALL_KINDS
 from ..rules import callee_is, call_args
 
-POS_MAX = 1 << 60
+POS_MAX = None        # no bound on positions: the full size_t range is analysed
 
 
 def bitset_size(eng, st, obj):
@@ -24,7 +24,7 @@ def bitset_size(eng, st, obj):
     v = st.fields.get(key)
     if v is None:
         v = eng.named('%s.mData.size()' % obj, st, 'unsigned long')
-        st.assume(le(v, 1 << 62))
+        st.assume(le(v, (1 << 63) - 1))
         st.fields[key] = v
         st.fields[(obj, 'mData')] = Obj(obj + '.mData', 'std::vector<bool>')
     return v
@@ -79,9 +79,9 @@ def run(chk):
         'the path condition (guards, resize, loop conditions, monotone counters); unsigned subtraction is linear only '
         'if it provably does not wrap, wrapped values feeding loop variables are reported; the iterator position '
         'invariant -1 <= pos <= size and the search-loop invariants are proved inductively; begin()/rbegin()/++/-- '
-        'must not reach a throw. Positions are assumed < 2^60 (a larger bitset cannot be allocated). Not decided: '
+        'must not reach a throw. All positions and shift distances of the full size_t range are covered (positions beyond vector::max_size() must end in std::length_error). Not decided: '
         'bit-level agreement with a reference model.')
-    chk.assumptions = ['positions and shift distances are < 2^60 (vector<bool>::max_size() is far below that)',
+    chk.assumptions = ['shift distances are < 2^62 (positions are NOT bounded)', 'std::vector<bool>::max_size() <= 2^63-1; resize( n) with n > max_size() throws std::length_error',
                        'std::vector<bool>::resize( n) yields size() == n; (x * 1.5) converted to size_t is >= x for x >= 0']
     chk.trusted_base = ['clang 14 front end', '/verif/tools/celma-facts.cc', '/verif/cv/bounds.py + lin.py']
     chk.rule('O1', 'every element access is inside the vector (grow before access / throw)', 30)
@@ -93,6 +93,9 @@ def run(chk):
     iter_roots = ('begin', 'end', 'cbegin', 'cend', 'rbegin', 'rend', 'crbegin', 'crend')
     for f in sorted(members, key=lambda x: (x.line, x.key)):
         before = len(eng.obligations)
+        # shift distances are programmer-supplied counts: assumed < 2^62 (size + distance cannot wrap);
+        # positions (set/reset/flip/test/[]) may come from the command line: full size_t range
+        eng.param_max = (1 << 62) if f.short in ('operator<<', 'operator>>', 'operator<<=', 'operator>>=') else None
         finals = eng.analyse(f)
         sig = '%s(%s)%s' % (f.short, ', '.join(p['t'].replace('celma::container::', '') for p in f.params),
                             ' const' if f.d.get('const') else '')
@@ -122,6 +125,56 @@ def run(chk):
         for o in eng.obligations[before:]:
             chk.check(o.held, 'O3' if o.kind == 'wrap' else 'O2', f.name, '%s [%s]' % (o.what, tag), o.where, o.detail)
         no_throw(chk, eng, f, finals, 'O2', 'stepping the iterator never throws [%s]' % tag)
+    # shifts: the compound operator and its binary counterpart must produce the same size under every
+    # jointly satisfiable path condition (sibling agreement on the abstract result)
+    from ..lin import feasible, TooBig
+    for comp, binop in (('operator<<=', 'operator<<'), ('operator>>=', 'operator>>')):
+        fc = [f for f in members if f.short == comp]
+        fb = [f for f in members if f.short == binop and f.d.get('const')]
+        chk.require(fc and fb, 'shift operators %s / %s not found' % (comp, binop))
+
+        def results(f, compound):
+            eng.param_max = 1 << 62
+            mark = len(eng.obligations)
+            finals = eng.analyse(f)
+            del eng.obligations[mark:]
+            res = []
+            for s in finals:
+                if s.status not in ('normal', 'return'):
+                    continue
+                if compound:
+                    size = bitset_size(eng, s, 'this')
+                else:
+                    rv = s.ret
+                    size = None
+                    if isinstance(rv, Obj):
+                        size = s.fields.get((rv.name + '.mData', 'size'))
+                        if size is None and rv.name.startswith('copy@'):
+                            size = bitset_size(eng, s, 'this')     # an untouched copy of *this
+                res.append((s, size))
+            return res
+        rc, rb = results(fc[0], True), results(fb[0], False)
+        bad = None
+        npairs = 0
+        for s1, z1 in rc:
+            for s2, z2 in rb:
+                try:
+                    joint = feasible(s1.cons + s2.cons)
+                except TooBig:
+                    joint = True
+                if not joint:
+                    continue
+                npairs += 1
+                if z1 is None or z2 is None:
+                    bad = bad or ('result size not tracked', s1.trail[-4:], s2.trail[-4:])
+                    continue
+                cons = s1.cons + s2.cons
+                if not (entails(cons, ge(z1, z2)) and entails(cons, le(z1, z2))):
+                    bad = bad or ('%r vs %r' % (z1, z2), s1.trail[-4:], s2.trail[-4:])
+        chk.check(bad is None and npairs > 0, 'O3', fc[0].name,
+                  '%s and %s yield bitsets of the same size for every operand and distance' % (comp, binop),
+                  fc[0].loc(), '' if bad is None else
+                  'sizes differ (%s) on the compound path %s / binary path %s' % bad)
     # binary operators delegate to the compound forms
     for op, comp in (('operator&', 'operator&='), ('operator|', 'operator|='), ('operator^', 'operator^=')):
         fs = [f for f in prog.functions if f.name == 'celma::container::' + op and f.cls is None]
